@@ -25,8 +25,7 @@ def readFull : Nat → Script → Bytes → Nat → RRes × Nat
 termination_by need script => script.length
 decreasing_by simp_wf
 
-def wordGate (n : Int) : Bool :=
-  n < Gen.NewMnemonic.wcMin || n > Gen.NewMnemonic.wcMax || n.tmod Gen.NewMnemonic.wcMod != Gen.NewMnemonic.wcRem
+def wordGate (n : Int) : Bool := Gen.Gates.wordGate n
 
 def bufSize (n : Int) : Int := n + n.tdiv Gen.NewMnemonic.bufDiv
 
